@@ -70,7 +70,7 @@ impl Scenario for C17 {
                     24 | 25 => TOp::CloneKey { kind },
                     26 | 27 => TOp::HandOff { kind, to: b.rng.usize_below(nthreads) },
                     28 => TOp::EncryptRngFail,
-                    29 => TOp::ParseGarbageKey { kind: if bk == Bk::V1 { Kind::Local } else { kind } },
+                    29 => TOp::ParseGarbageKey { kind: if bk == Bk::V1 { Kind::Local } else { kind }, shape: b.rng.below(5) as u8 },
                     30 => TOp::UnsealKeyWrongRecipient,
                     31 => TOp::UnwrapPieWrongKey,
                     32 => TOp::DecryptWrongKey,
@@ -82,6 +82,23 @@ impl Scenario for C17 {
                     s.push(TOp::SealKey);
                     s.push(op);
                     s.push(TOp::UnsealKeyOwn);
+                    continue;
+                }
+                // a rejected key must leave nothing behind on the thread that parsed it: sign, verify and
+                // key exchange follow immediately
+                if matches!(op, TOp::ParseGarbageKey { .. }) {
+                    s.push(op);
+                    match b.rng.below(3) {
+                        0 => {
+                            s.push(TOp::Sign { len: b.rng.usize_below(100) });
+                            s.push(TOp::VerifyOwn);
+                        }
+                        1 => s.push(TOp::VerifyShared),
+                        _ => {
+                            s.push(TOp::SealKey);
+                            s.push(TOp::UnsealKeyOwn);
+                        }
+                    }
                     continue;
                 }
                 if matches!(op, TOp::UnwrapPieWrongKey) {
